@@ -452,6 +452,12 @@ class C16(Profile):
                 vals += 1.0
                 st["faults"].setdefault("K4", {"armed": 0, "fired": 0, "recovered": 0})["armed"] += 1
                 st["faults"]["K4"]["fired"] += 1
+        if v is None and op["via"] != "load_values_and_dt" and (step + len(rec["values"])) % 2 == 0:
+            # ... and with the signal it was given: it goes on to process it with a public operation that edits the record in
+            # place.  A later load of the file must not care (c05u-3, c04u-2: loaders that keep and share what they loaded)
+            if capture(lambda: out.value.running_average(3)).ok:
+                st["faults"].setdefault("K4", {"armed": 0, "fired": 0, "recovered": 0})["armed"] += 1
+                st["faults"]["K4"]["fired"] += 1
         if v:
             field, why = v
             return dict(base, invariant="round-trip", field=field,
